@@ -69,3 +69,182 @@ Example C15_example :
   let o := q_mkObj [bu; bv] [[0;0;1]; [0;2;1]; [1;0;2]; [2;4;2]; [3;1;1]; [3;3;1]]%Q 2 true in
   o_cps (q_obj_section o [1; 2]%nat) = [[3;1;1]; [3;3;1]]%Q /\ length (o_bases (q_obj_section o [1; 2]%nat)) = 1%nat.
 Proof. vm_compute. split; reflexivity. Qed.
+
+(* ------------------------------------------------------------------------------------------------------
+   Added in build session 4 (statements re-stated from the proof files by harness tooling; each is closed by
+   exact). *)
+From SplipyModel Require Import Proofs.ObjEval Model.ConstPar Proofs.SplitCompose Proofs.SectionEndToEnd Transfer.ParamObj Transfer.ParamOps Transfer.ParamOps2.
+Open Scope R_scope.
+Theorem C15_pinned_eval :
+  forall (tol : R) (o : obj R),
+         wf_obj_R tol o ->
+         forall pins : list pin,
+         Forall2 (pin_ok tol) pins (o_bases o) ->
+         forall ts : list R, obj_eval tol (pinned_obj o pins) ts = obj_eval tol o (fill pins ts).
+Proof. exact @pinned_eval. Qed.
+Print Assumptions C15_pinned_eval.
+
+Theorem C15_section_then_evaluate_one :
+  forall (tol : R) (o : obj R) (d : nat) (last : bool) (ts : list R),
+         0 < tol ->
+         wf_obj_R tol o ->
+         (d < length (o_bases o))%nat ->
+         let bd := nth d (o_bases o) dflt_basis in
+         b_per1 bd = 0%nat ->
+         (if last then clamped_end bd else clamped_start bd) ->
+         length ts = (length (o_bases o) - 1)%nat ->
+         obj_eval tol (obj_section o (one_sel (length (o_bases o)) d last)) ts =
+         obj_eval tol o (firstn d ts ++ (if last then b_end bd else b_start bd) :: skipn d ts).
+Proof. exact @section_eval_one. Qed.
+Print Assumptions C15_section_then_evaluate_one.
+
+Theorem C15_section_then_evaluate :
+  forall tol : R,
+         0 < tol ->
+         forall o : obj R,
+         wf_obj_R tol o ->
+         forall sels : list nat,
+         Forall2 sec_ok sels (o_bases o) ->
+         forall ts : list R, obj_eval tol (obj_section o sels) ts = obj_eval tol o (sec_fill sels (o_bases o) ts).
+Proof. exact @section_eval. Qed.
+Print Assumptions C15_section_then_evaluate.
+
+Theorem C15_section_wf :
+  forall tol : R,
+         0 < tol ->
+         forall o : obj R,
+         wf_obj_R tol o -> forall sels : list nat, Forall2 sec_ok sels (o_bases o) -> wf_obj_R tol (obj_section o sels).
+Proof. exact @section_wf. Qed.
+Print Assumptions C15_section_wf.
+
+Theorem C15_section_corner :
+  forall (tol : R) (o : obj R) (sels : list nat),
+         0 < tol ->
+         wf_obj_R tol o ->
+         Forall2 sec_ok sels (o_bases o) ->
+         all_pinned sels ->
+         let P := nth (corner_flat sels (o_shape o)) (o_cps o) [] in
+         obj_eval tol o (sec_fill sels (o_bases o) []) = Ok (if o_rat o then project_rat (o_dim o) P else P).
+Proof. exact @section_corner. Qed.
+Print Assumptions C15_section_corner.
+
+Theorem C15_section_is_slice :
+  forall (tol : R) (o : obj R) (sels js : list nat),
+         wf_obj_R tol o ->
+         length sels = length (o_bases o) ->
+         Forall2 lt js (o_shape (obj_section o sels)) ->
+         nth (ravel (o_shape (obj_section o sels)) js) (o_cps (obj_section o sels)) [] =
+         nth (ravel (o_shape o) (sec_idx sels (o_shape o) js)) (o_cps o) [].
+Proof. exact @section_cps_slice. Qed.
+Print Assumptions C15_section_is_slice.
+
+Theorem C15_surface_edges_order :
+  forall (tol : R) (o : obj R) (bu bv : basis R),
+         0 < tol ->
+         wf_obj_R tol o ->
+         o_bases o = [bu; bv] ->
+         let E := surface_edges o in
+         (b_per1 bu = 0%nat ->
+          clamped_start bu -> forall v : R, obj_eval tol (nth 0 E dflt_obj) [v] = obj_eval tol o [b_start bu; v]) /\
+         (b_per1 bu = 0%nat ->
+          clamped_end bu -> forall v : R, obj_eval tol (nth 1 E dflt_obj) [v] = obj_eval tol o [b_end bu; v]) /\
+         (b_per1 bv = 0%nat ->
+          clamped_start bv -> forall u : R, obj_eval tol (nth 2 E dflt_obj) [u] = obj_eval tol o [u; b_start bv]) /\
+         (b_per1 bv = 0%nat ->
+          clamped_end bv -> forall u : R, obj_eval tol (nth 3 E dflt_obj) [u] = obj_eval tol o [u; b_end bv]).
+Proof. exact @surface_edges_eval. Qed.
+Print Assumptions C15_surface_edges_order.
+
+Theorem C15_volume_faces_order :
+  forall (tol : R) (o : obj R) (bu bv bw : basis R),
+         0 < tol ->
+         wf_obj_R tol o ->
+         o_bases o = [bu; bv; bw] ->
+         let F := volume_faces o in
+         (b_per1 bu = 0%nat ->
+          clamped_start bu ->
+          exists f : obj R,
+            nth 0 F None = Some f /\ (forall v w : R, obj_eval tol f [v; w] = obj_eval tol o [b_start bu; v; w])) /\
+         (b_per1 bu = 0%nat ->
+          clamped_end bu ->
+          exists f : obj R,
+            nth 1 F None = Some f /\ (forall v w : R, obj_eval tol f [v; w] = obj_eval tol o [b_end bu; v; w])) /\
+         (b_per1 bv = 0%nat ->
+          clamped_start bv ->
+          exists f : obj R,
+            nth 2 F None = Some f /\ (forall u w : R, obj_eval tol f [u; w] = obj_eval tol o [u; b_start bv; w])) /\
+         (b_per1 bv = 0%nat ->
+          clamped_end bv ->
+          exists f : obj R,
+            nth 3 F None = Some f /\ (forall u w : R, obj_eval tol f [u; w] = obj_eval tol o [u; b_end bv; w])) /\
+         (b_per1 bw = 0%nat ->
+          clamped_start bw ->
+          exists f : obj R,
+            nth 4 F None = Some f /\ (forall u v : R, obj_eval tol f [u; v] = obj_eval tol o [u; v; b_start bw])) /\
+         (b_per1 bw = 0%nat ->
+          clamped_end bw ->
+          exists f : obj R,
+            nth 5 F None = Some f /\ (forall u v : R, obj_eval tol f [u; v] = obj_eval tol o [u; v; b_end bw])) /\
+         (b_per1 bu <> 0%nat -> nth 0 F None = None /\ nth 1 F None = None) /\
+         (b_per1 bv <> 0%nat -> nth 2 F None = None /\ nth 3 F None = None) /\
+         (b_per1 bw <> 0%nat -> nth 4 F None = None /\ nth 5 F None = None) /\ length F = 6%nat.
+Proof. exact @volume_faces_eval. Qed.
+Print Assumptions C15_volume_faces_order.
+
+Theorem C15_volume_edges_order :
+  forall (tol : R) (o : obj R) (i : nat) (ts : list R),
+         0 < tol ->
+         wf_obj_R tol o ->
+         (i < 12)%nat ->
+         Forall2 sec_ok (nth i (sections 3 1) []) (o_bases o) ->
+         obj_eval tol (nth i (volume_edges o) dflt_obj) ts =
+         obj_eval tol o (sec_fill (nth i (sections 3 1) []) (o_bases o) ts).
+Proof. exact @volume_edges_eval. Qed.
+Print Assumptions C15_volume_edges_order.
+
+Theorem C15_corners_order :
+  forall (tol : R) (o : obj R) (i : nat),
+         0 < tol ->
+         wf_obj_R tol o ->
+         (o_pardim o <= 3)%nat ->
+         (i < length (sections (o_pardim o) 0))%nat ->
+         let sel := nth i (sections (o_pardim o) 0) [] in
+         let P := nth i (obj_corners o) [] in
+         P = nth (corner_flat sel (o_shape o)) (o_cps o) [] /\
+         (Forall open_dir (o_bases o) ->
+          obj_eval tol o (sec_fill sel (o_bases o) []) = Ok (if o_rat o then project_rat (o_dim o) P else P)).
+Proof. exact @corners_eval. Qed.
+Print Assumptions C15_corners_order.
+
+Theorem C15_const_par_curve_then_evaluate :
+  forall (tol : R) (o : obj R) (bu bv : basis R) (d : nat) (x : R),
+         0 < tol ->
+         wf_obj_R tol o ->
+         o_bases o = [bu; bv] ->
+         (d < 2)%nat ->
+         let b := nth d [bu; bv] dflt_basis in
+         b_per1 b = 0%nat ->
+         knot_sep tol (b_knots b) x ->
+         b_start b <= x < b_end b /\ (mult (b_knots b) x <= b_order b - 1)%nat \/
+         x = b_start b /\ clamped_start b \/ x = b_end b /\ clamped_end b ->
+         exists cv : obj R,
+           const_par_curve tol o x d = Ok cv /\
+           wf_obj_R tol cv /\
+           o_bases cv = [nth (1 - d) [bu; bv] dflt_basis] /\
+           (forall s : R, obj_eval tol cv [s] = obj_eval tol o (cpc_params d x s)).
+Proof. exact @const_par_curve_eval. Qed.
+Print Assumptions C15_const_par_curve_then_evaluate.
+
+Theorem C15_extrude_bottom_is_profile :
+  forall (dim : nat) (rat : bool) (amount : list R) (prof : list (list R)),
+         firstn (length prof) (Factory.extrude_cps dim rat amount prof) = prof /\
+         length (Factory.extrude_cps dim rat amount prof) = (2 * length prof)%nat /\
+         (forall j : nat, (j < length prof)%nat -> nth j (Factory.extrude_cps dim rat amount prof) [] = nth j prof []).
+Proof. exact @extrude_bottom_is_profile. Qed.
+Print Assumptions C15_extrude_bottom_is_profile.
+
+Theorem C15_executed_is_proved_section :
+  forall (o : obj Q) (sels : list nat), objQ2R (obj_section o sels) = obj_section (objQ2R o) sels.
+Proof. exact @obj_section_transfer. Qed.
+Print Assumptions C15_executed_is_proved_section.
+
